@@ -55,7 +55,7 @@ impl SrcKind {
     }
 
     pub fn can_close(self) -> bool {
-        !matches!(self, Self::Udp)
+        !matches!(self, Self::Udp | Self::Dgram)
     }
 }
 
@@ -124,8 +124,8 @@ impl Source {
                 (a.into(), Writer::Fd(b.into()))
             }
             SrcKind::File => {
-                let p = scratch.join(format!("f{salt}.dat"));
-                let f = std::fs::OpenOptions::new().create(true).truncate(true).append(true).open(&p)?;
+                let p = scratch.join(format!("f{}_{salt}.dat", std::process::id()));
+                let f = std::fs::OpenOptions::new().create(true).append(true).open(&p)?;
                 let r = std::fs::File::open(&p)?;
                 (r.into(), Writer::File(f, p))
             }
